@@ -4,12 +4,14 @@ from __future__ import annotations
 
 import ast
 
-from tiv.astutil import body_walk, call_name, dotted, enclosing_stmt, guards, kw, norm, short, stores_in, walk_local
+from tiv.astutil import flatten_boolop, body_walk, call_name, dotted, enclosing_stmt, guards, kw, norm, short, stores_in, walk_local
 from tiv.cfg import CFG, fmt_path
 from tiv.mutate import M
 from tiv.sem import trace, expand, same, same_bool, cx
 
 RULES = {
+    "MEMO": "memo safety (shared, rules/common.py): a memoised function in this property's files (or called from them) is a function of its "
+            "arguments only (no terminal/ambient/receiver state outside the key) and no caller mutates its result in place",
     "R1": "the cache key covers every mutable render input: every render-data field / iterator cell that a public control method can change and "
           "that _render_ receives (minus the cache index frame_offset and seek_whence) appears in the tuple compared against the cached details, "
           "and the tuple stored with a frame lists the same expressions in the same order",
@@ -23,6 +25,13 @@ RULES = {
 }
 IT, RN, CM = "render/_iterator.py", "renderable/_renderable.py", "image/common.py"
 CONTROL = ("seek", "set_frame_duration", "set_padding", "set_render_args", "set_render_size")
+
+
+def _anc(n):
+    p = getattr(n, "_p", None)
+    while p is not None:
+        yield p
+        p = getattr(p, "_p", None)
 
 
 def _nowalrus(e):
@@ -66,7 +75,7 @@ def iterate_facts(ck, m):
         v = getattr(n, "value", None)
         if isinstance(n, (ast.Assign, ast.NamedExpr)) and v is not None and norm(v) == f"{cache_v}[{fno_v}]":
             t = n.targets[0] if isinstance(n, ast.Assign) else n.target
-            if isinstance(t, ast.Name):
+            if isinstance(t, ast.Name) and t.id not in roles:
                 roles[t.id] = "cache_entry"
     miss = rc
     while miss is not None and not isinstance(miss, ast.If):
@@ -74,7 +83,7 @@ def iterate_facts(ck, m):
     if miss is not None:
         for c in ast.walk(miss.test):
             if isinstance(c, ast.Compare) and isinstance(c.left, ast.Name) and c.comparators and isinstance(c.comparators[0], ast.Tuple):
-                roles[c.left.id] = "frame_details"
+                roles.setdefault(c.left.id, "frame_details")
     applied = rename_locals(itf, roles)
     ck.extra.setdefault("roles", {})["RenderIterator._iterate"] = applied
     return itf, rc
@@ -84,7 +93,9 @@ def rule_padding_after_cache(ck, m, rid):
     itf, rc = iterate_facts(ck, m)
     g = CFG(itf)
     pads = [n for n in g.nodes if n.kind == "stmt" and isinstance(n.ast, ast.Assign) and norm(n.ast.targets[0]) == "frame" and ".pad(" in norm(n.ast.value)]
-    ck.need(len(pads) >= 1, "_iterate: padding step `frame = Frame(..., self._padding.pad(...))` not found")
+    ck.expect(len(pads) >= 1, "_iterate: padding step `frame = Frame(..., self._padding.pad(...))` not found")
+    if not pads:
+        return
 
     def is_cache_store(n):
         return n.kind == "stmt" and n.ast is not None and any(isinstance(t, ast.Subscript) and norm(t.value) == "cache" for t, _ in stores_in(n.ast))
@@ -127,11 +138,42 @@ def run(ck, m):
     # inputs of _render_: the render data (all namespace fields) and the second argument
     inputs = {x for x in mutable if x.startswith("data.")} | {norm(rc.args[1])}
     need = (inputs & mutable) - {"data.frame_offset", "data.seek_whence"}
-    miss_if = next((s for s in body_walk(itf) if isinstance(s, ast.If) and "frame_details" in norm(s.test)), None)
-    ck.need(miss_if is not None, "_iterate: miss condition with frame_details not found")
-    cmp_ = next((c for c in ast.walk(miss_if.test) if isinstance(c, ast.Compare) and norm(c.left) == "frame_details"), None)
-    ck.need(cmp_ is not None and isinstance(cmp_.comparators[0], ast.Tuple), "_iterate: `frame_details != (...)` not recognised")
-    compared = [norm(e).replace("renderable_data.", "data.") for e in cmp_.comparators[0].elts]
+    miss_if = rc
+    while miss_if is not None and not isinstance(miss_if, ast.If):
+        miss_if = getattr(miss_if, "_p", None)
+    ck.need(miss_if is not None, "_iterate: the `if` that decides a cache miss (around the _render_ call) not found")
+    cmps_ = [c for c in ast.walk(miss_if.test) if isinstance(c, ast.Compare) and len(c.ops) == 1 and isinstance(c.ops[0], (ast.NotEq, ast.Eq))]
+    cmp_, cur_side, oth_side = None, None, None
+    for c in cmps_:
+        for a_, b_ in ((c.left, c.comparators[0]), (c.comparators[0], c.left)):
+            ta = trace(itf, a_, keep=("cache", "frame_no", "renderable_data"))
+            if isinstance(ta, ast.Tuple) and any("renderable_data." in norm(e) or "self._render_args" in norm(e) for e in ta.elts):
+                cmp_, cur_side, oth_side = c, ta, b_
+    if cmp_ is None:
+        # not the tuple form: every setting that can change must at least be compared UNCONDITIONALLY by a disjunct of the miss test
+        disj = [_nowalrus(trace(itf, d_, keep=("cache", "frame_no", "renderable_data", "frame"))) for d_ in flatten_boolop(miss_if.test, ast.Or)]
+        decided = False
+        for cell in sorted(need):
+            src_ = cell.replace("data.", "renderable_data.")
+            bare = [d_ for d_ in disj if isinstance(d_, ast.Compare) and len(d_.ops) == 1 and isinstance(d_.ops[0], ast.NotEq) and src_ in (norm(d_.left), norm(d_.comparators[0]))]
+            cond = [d_ for d_ in disj if not isinstance(d_, ast.Compare) and src_ in norm(d_)]
+            if not bare and cond:
+                decided = True
+                ck.ob("R1", miss_if, False, f"`{cell}` can be changed by a control method and is an input of _render_, but the miss test compares it only conditionally (`{norm(cond[0])[:110]}`): "
+                      "whenever that side condition does not hold, a frame cached under another value is served", stmt=f"cache key covers {cell}")
+            elif not bare:
+                decided = True
+                ck.ob("R1", miss_if, False, f"`{cell}` can be changed by a control method and is an input of _render_, but is not compared by the miss test: after changing it a cached frame rendered with the old value is served",
+                      stmt=f"cache key covers {cell}")
+        ck.expect(decided, "_iterate: comparison of the current settings with the stored details not recognised in the miss condition")
+        return
+    compared = [norm(e).replace("renderable_data.", "data.") for e in cur_side.elts]
+    # the details compared must be the ones stored WITH THE ENTRY looked up under the current frame number
+    oth_t = norm(_nowalrus(trace(itf, oth_side, keep=("cache", "frame_no"))))
+    per_entry = oth_t == "cache[frame_no][1:]"
+    ck.ob("R1", miss_if, per_entry,
+          f"the settings a cached frame is validated against (`{norm(oth_side)}` = `{oth_t[:80]}`) are not the ones stored with that entry (cache[frame_no][1:]): details shared between entries say nothing about "
+          "the settings an individual frame was rendered with, so after a setting changed and one frame was re-rendered every other stale frame is served as valid", stmt="cache validity details are per entry: cache[frame_no][1:]")
     for cell in sorted(need):
         ck.ob("R1", miss_if, cell in compared,
               f"`{cell}` can be changed by a control method and is an input of _render_, but is not part of the cache key {compared}: after changing it a cached frame rendered with the old value is served",
@@ -156,6 +198,14 @@ def run(ck, m):
 
     # ---- R2 ----------------------------------------------------------------------------
     rule_padding_after_cache(ck, m, "R2")
+    # the only container filled by the frame loop is `cache` (whose validity rules are R1/R2); another per-frame memo would need its own
+    filled = {}
+    for t, st in stores_in(ast.Module(body=itf.body, type_ignores=[])):
+        if isinstance(t, ast.Subscript) and isinstance(t.value, ast.Name) and any(isinstance(a_, (ast.While, ast.For)) for a_ in _anc(st)):
+            filled.setdefault(t.value.id, st)
+    for nm_, st in sorted(filled.items()):
+        ck.ob("R2", st, nm_ == "cache", f"_iterate fills a second per-frame store `{nm_}` (`{short(st, 60)}`): whatever it memoises (padded frames, details ...) is served without the validity "
+              "test of the frame cache (size, duration, render args - and the current padding, which is deliberately applied after the cache)", stmt=f"_iterate: per-frame stores = {{cache}} ({nm_})")
 
     # ---- R3 ----------------------------------------------------------------------------
     ini = m.get(IT, "RenderIterator._init")
@@ -228,6 +278,9 @@ def run(ck, m):
     cs = next((st for t, st in stores_in(ast.Module(body=ii.body, type_ignores=[])) if norm(t) == "self._cached"), None)
     ck.ob("R5", cs or ii, cs is not None and same_bool(ii, cs.value, "repeat != 1 and (cached if isinstance(cached, bool) else image.n_frames <= cached)"),
           "ImageIterator._cached must be: repeat != 1 and (cached if bool else n_frames <= cached)", stmt="ImageIterator.__init__: _cached decision")
+
+    from rules.common import rule_memo_safety
+    rule_memo_safety(ck, m, "MEMO", "C09")
 
 
 MUTANTS = [
